@@ -99,6 +99,21 @@ func main() {
 		} else {
 			e.Strs("pathTokenizerConds", ifConds(f, fd.Body), "PathTokenizer.Tokenize: conditions in source order")
 		}
+		// a quoted token is never a keyword: the first statement of lexer.IsKeyword / IsKeywords / IsKeywordSet
+		if f, err := r.Load("parser/seqql.go"); err != nil {
+			e.Missing("isKeywordGuards", err)
+		} else {
+			var guards []string
+			for _, fn := range []string{"IsKeyword", "IsKeywords", "IsKeywordSet"} {
+				fd := f.Func("lexer", fn)
+				if fd == nil || len(fd.Body.List) == 0 {
+					guards = append(guards, fn+": not found")
+					continue
+				}
+				guards = append(guards, fn+": "+f.Render(fd.Body.List[0]))
+			}
+			e.Strs("isKeywordGuards", guards, "lexer.IsKeyword / IsKeywords / IsKeywordSet: the first statement")
+		}
 		// query side: the word predicates
 		if f, err := r.Load("parser/seqql_filter.go"); err != nil {
 			e.Missing("seqqlTextConds", err)
@@ -188,6 +203,25 @@ func main() {
 			e.Missing("indexConds", "indexer.index not found")
 		} else {
 			e.Strs("indexConds", ifConds(f, fd.Body), "indexer.index: conditions in source order")
+			// the Tokenize call inside the loop over tokenTypes.All: its arguments (the size limit must be the loop variable's)
+			var calls, loops []string
+			ast.Inspect(fd.Body, func(n ast.Node) bool {
+				switch v := n.(type) {
+				case *ast.RangeStmt:
+					loops = append(loops, f.Render(v.Key)+", "+f.Render(v.Value)+" := range "+f.Render(v.X))
+				case *ast.CallExpr:
+					if sel, ok := v.Fun.(*ast.SelectorExpr); ok && sel.Sel.Name == "Tokenize" {
+						var args []string
+						for _, a := range v.Args {
+							args = append(args, f.Render(a))
+						}
+						calls = append(calls, "Tokenize("+strings.Join(args, ", ")+")")
+					}
+				}
+				return true
+			})
+			e.Strs("indexLoops", loops, "indexer.index: range loops")
+			e.Strs("indexTokenizeCalls", calls, "indexer.index: arguments of the Tokenize call")
 		}
 	}, "tokenizer/tokenizer.go", "tokenizer/text_tokenizer.go", "tokenizer/keyword_tokenizer.go", "tokenizer/path_tokenizer.go",
 		"parser/seqql_filter.go", "parser/token_parser.go", "proxy/bulk/ingestor.go", "proxy/bulk/indexer.go", "consts/consts.go")
